@@ -54,6 +54,11 @@ API_STEPS = [
     "unary_inplace_candidates",
     "binary_views",
     "logspace_contraction",
+    "affine",
+    "recipes_ffbs",
+    "partial_sum_product",
+    "joint_mixture",
+    "approximate",
 ]
 
 
@@ -427,6 +432,57 @@ def api_step(name, ctx, env_values):
         with f.interpretations.lazy:
             x = (la + lb).reduce(ops.logaddexp, "j")
         out.append(f.optimizer.apply_optimizer(x))
+        return out
+    if name == "affine":
+        from funsor.affine import affine_inputs, extract_affine, is_affine
+
+        xv = f.Variable("x", f.Reals[2])
+        yv = f.Variable("y", f.Reals[2])
+        expr = e[0] * xv + yv * 2.0 - e[1]  # e is [i,j]-batched with event shape (2,)
+        const, coeffs = extract_affine(expr)
+        return [expr, const] + [c for c, _ in coeffs.values()] + ([f.Number(1.0)] if is_affine(expr) and affine_inputs(expr) else [])
+    if name == "recipes_ffbs":
+        from funsor.recipes import forward_filter_backward_rsample
+
+        g = ctx.gaussian()  # inputs i, x, y
+        factors = {"x": g, "w": c.log()}
+        samples, log_prob = forward_filter_backward_rsample(factors, frozenset(["x", "y", "i"]), frozenset(["i"]), OD(p=f.Bint[2]))
+        return list(samples.values()) + [log_prob]
+    if name == "partial_sum_product":
+        la, lb, lc = ctx.T(ctx.l_ij, "ij"), ctx.T(ctx.l_jk, "jk"), c.log()
+        factors = [la, lb, lc]
+        eliminate = frozenset(["j", "k"])
+        plates = frozenset(["i"])
+        out = f.sum_product.partial_sum_product(ops.logaddexp, ops.add, factors, eliminate, plates)
+        out2 = f.sum_product.sum_product(ops.logaddexp, ops.add, factors, frozenset(["i", "j", "k"]), plates)
+        # the caller's containers must be untouched as well
+        if len(factors) != 3 or eliminate != frozenset(["j", "k"]) or plates != frozenset(["i"]):
+            raise Violation("argument-container-mutated", "sum_product modified the factor list / eliminate / plates it was given")
+        return list(out) + [out2]
+    if name == "joint_mixture":
+        g = ctx.gaussian()
+        w = c.log()
+        d = f.delta.Delta("y", f.Tensor(np.array([0.3, -0.2])))
+        mix = g + w
+        return [
+            mix,
+            mix + d,
+            (mix + d).reduce(ops.logaddexp, "y"),
+            (g + d)(x=f.Tensor(np.array(0.25))),
+            mix.reduce(ops.logaddexp, frozenset(["x", "y"])),
+            (mix.reduce(ops.logaddexp, frozenset(["x", "y"]))).reduce(ops.logaddexp, "i"),
+        ]
+    if name == "approximate":
+        la = ctx.T(ctx.l_ij, "ij")
+        guide = la + c.log()
+        out = []
+        for interp in (f.interpretations.eager, f.interpretations.lazy):
+            with interp:
+                out.append(la.approximate(ops.logaddexp, guide, "j"))
+        with f.approximations.argmax_approximate:
+            out.append(la.approximate(ops.logaddexp, guide, "j"))
+        with f.montecarlo.MonteCarlo():
+            out.append(la.approximate(ops.logaddexp, guide, "j"))
         return out
     if name == "binary_views":
         v = a(j=f.terms.Slice("j", 0, 2, 1, 3))  # a view of the user's array
